@@ -21,6 +21,8 @@ BOUNDS = {
 }
 OUTSIDE = "wider intervals, more topologies; the sampling mode's convergence to the product law (statistical: what is decided is that each dimension is " \
           "drawn by one weighted primitive over its degree interval with the marginal as weights and that the table is the frequency of the stacked draws); " \
+          "a sampling mode that does not draw through random.choices (e.g. numpy searchsorted over random.random() variates, which numpy turns into " \
+          "floats at the C boundary) is not judged: the sampling obligations are then never reached and the check stops with a harness error rather than a verdict; " \
           "the Poisson-based fixtures of the always-failing tests (see C19)"
 ASSUMPTIONS = ["'inside the given bounds' is read as the interval [kmin, kmax-1] or [kmin, kmax] (both accepted, nothing else)",
                "the function loader may expose fp itself or any positive multiple of it (same distribution)",
